@@ -46,6 +46,8 @@ def _ref_cases(tier):
                 if level < 0 and any(n % (2 ** -level) for n in shape):
                     continue
                 out.append(dict(shape=shape, payload=payload, level=level))
+    for payload in ("scalar", "vector-series"):
+        out.append(dict(shape=(2, 3), payload=payload, level=0))            # level 0: nothing to resample - still a NEW image
     if tier == "quick":
         out.append(dict(shape=(2, 3), payload="scalar", level=3))
         out.append(dict(shape=(8, 8), payload="scalar", level=-3))
@@ -81,6 +83,10 @@ def c11_refine(ctx, shape, payload, level):
             want[v] = sum(blk.flat) / (f ** dim)
         ctx.ensure("coarsening averages the 2^|level| blocks", eq(out.img, want))
     ctx.ensure("input untouched", img.img is arr)
+    # the result is the caller's own image: it shares no memory with the argument (a later in-place edit of one must not reach the other)
+    ctx.ensure("result is a new image whose array does not share memory with the argument's", out is not img and out.img is not arr and not np.shares_memory(out.img, arr))
+    if level == 0:
+        ctx.ensure("level 0 returns the data unchanged", same(out.img, arr))
 
 
 @ob("C11.coarsen_odd", cases=[dict(shape=(3, 2)), dict(shape=(2, 5)), dict(shape=(6, 2), level=-2)], mods=MODS, funcs=FUNCS, stubs=STUBS, samples=(1, 2),
